@@ -36,7 +36,11 @@ def _updated_scale(scale, new_scale, momentum):
         return scale
     if torch.all(scale == 1):
         return new_scale
-    return momentum * scale + new_scale * (1.0 - momentum)
+    # The average is evaluated in float32 (at least): the products of float16 scales in the subnormal range would
+    # underflow, and the average of two equal tiny scales would be null
+    dtype = torch.promote_types(scale.dtype, new_scale.dtype)
+    acc_dtype = torch.promote_types(dtype, torch.float32)
+    return (momentum * scale.to(acc_dtype) + new_scale.to(acc_dtype) * (1.0 - momentum)).to(dtype)
 
 
 def absmax_scale(base: torch.Tensor, qtype: qtype = qint8, axis: Optional[int] = None) -> torch.Tensor:
